@@ -81,7 +81,11 @@ EXTRA = [("ntmix", "NtMix"), ("ntmix2", "NtMix2"), ("al", "Al"), ("al2", "Al2"),
          ("dict_bool", "Dict[bool, int]"), ("dict_float", "Dict[float, int]"), ("dict_enum", "Dict[Num, int]"),
          ("tstar3", "Tuple[int, Unpack[Tuple[str, str]], float]"), ("tstar4", "Tuple[Unpack[Tuple[int, ...]], str]"),
          ("nt_list", "List[NT]"), ("opt_gen", "Optional[Gen[int]]"), ("lit_bytes", "Literal[b'x', 'y']"),
-         ("ntlist", "NtList"), ("ntlist2", "NtList2"), ("initf", "InitF"), ("initf_list", "List[InitF]")]
+         ("ntlist", "NtList"), ("ntlist2", "NtList2"), ("initf", "InitF"), ("initf_list", "List[InitF]"),
+         # variadic parts of Any (the item schema is absent, the length is still unbounded), nested unpacks
+         ("tstar_any", "Tuple[int, Unpack[Tuple[Any, ...]]]"), ("tstar_any_head", "Tuple[Unpack[Tuple[Any, ...]], int]"),
+         ("tstar_any_mid", "Tuple[str, Unpack[Tuple[Any, ...]], int]"), ("tstar_empty", "Tuple[int, Unpack[Tuple[()]]]"),
+         ("tvar_any", "Tuple[Any, ...]"), ("list_tstar_any", "List[Tuple[int, Unpack[Tuple[Any, ...]]]]")]
 
 
 def probe(s, variant):
